@@ -126,7 +126,17 @@ func corpus() []corpusFile {
 
 var byteAlphabet = []byte{0x00, 0xFF, 0x80, '-', '9', ' ', '\n', 'e', '.'}
 var tokenAlphabet = []string{"-1", "0", "1", "2", "255", "256", "2147483647", "2147483648", "4294967295", "9223372036854775807", "1e999", "nan", "", "x", "-0", "1000000"}
-var windowAlphabet = [][4]byte{{0, 0, 0, 0}, {0xFF, 0xFF, 0xFF, 0xFF}, {0x7F, 0xFF, 0xFF, 0xFF}, {0x80, 0, 0, 0}, {0xFF, 0xFF, 0xFF, 0x7F}, {0, 0, 0, 0x80}, {0, 0, 1, 0}, {0, 1, 0, 0}}
+var windowAlphabet = func() [][4]byte {
+	out := [][4]byte{{0, 0, 0, 0}, {0xFF, 0xFF, 0xFF, 0xFF}, {0x7F, 0xFF, 0xFF, 0xFF}, {0x80, 0, 0, 0}, {0xFF, 0xFF, 0xFF, 0x7F}, {0, 0, 0, 0x80}, {0, 0, 1, 0}, {0, 1, 0, 0}}
+	// counts that wrap a 32-bit size computation: the smallest n with n*m >= 2^32 for the record sizes m a decoder
+	// may multiply with (element sizes 2..16, a vertex of three float32, the 50-byte STL record), so that n*m mod
+	// 2^32 is tiny and looks consistent with a small file; in both byte orders
+	for _, m := range []uint64{2, 4, 8, 12, 16, 50} {
+		n := uint32((uint64(1)<<32)/m + 1)
+		out = append(out, [4]byte{byte(n), byte(n >> 8), byte(n >> 16), byte(n >> 24)}, [4]byte{byte(n >> 24), byte(n >> 16), byte(n >> 8), byte(n)})
+	}
+	return out
+}()
 
 // wordAlphabet: every keyword of the three text formats and all 16 PLY type
 // names - a header word corrupted into another *valid* word of the format.
@@ -385,7 +395,9 @@ type outcome struct {
 var siteRe = regexp.MustCompile(`github\.com/unixpickle/model3d/[a-z0-9_]+\.(\(\*?[A-Za-z0-9_\[\].]+\)\.)?[A-Za-z0-9_]+`)
 var digitsRe = regexp.MustCompile(`[0-9]+`)
 
-func runEntry(e *entry, data []byte, oneByte bool) (o outcome) {
+// mode: 0 = plain reader (counts reads past the end), 1 = one byte per Read, 2 = the *bytes.Reader itself, i.e. a
+// reader with Len/Seek/ReadAt/WriteTo/ReadByte, which decoders may detect and take shortcuts for
+func runEntry(e *entry, data []byte, mode int) (o outcome) {
 	done := make(chan outcome, 1)
 	go func() {
 		var res outcome
@@ -409,7 +421,11 @@ func runEntry(e *entry, data []byte, oneByte bool) (o outcome) {
 					res = outcome{Kind: "panic", Msg: fmt.Sprint(x), Site: site}
 				}
 			}()
-			e.Run(&countingReader{data: data, one: oneByte}, data)
+			if mode == 2 {
+				e.Run(bytes.NewReader(data), data)
+			} else {
+				e.Run(&countingReader{data: data, one: mode == 1}, data)
+			}
 		}()
 		if res.Kind == "" {
 			if delta := allocBytes() - before; delta > allocBase+allocPerByte*uint64(len(data)) {
@@ -506,18 +522,25 @@ func worker(shard, nshards, start int, statePath string, thorough bool) {
 			binary.LittleEndian.PutUint64(buf[:8], uint64(idx))
 			binary.LittleEndian.PutUint64(buf[8:], uint64(ei))
 			sf.WriteAt(buf[:], 0)
-			modes := []bool{false}
+			modes := []int{0}
 			if thorough || c.Kind == "truncate" || c.Kind == "token" || c.Kind == "word" {
-				modes = append(modes, true) // the same faulty file delivered one byte per Read
+				modes = append(modes, 1) // the same faulty file delivered one byte per Read
 			}
-			for _, oneByte := range modes {
-				o := runEntry(e, data, oneByte)
+			if thorough || c.Kind == "truncate" || c.Kind == "token" || c.Kind == "window4" {
+				modes = append(modes, 2) // ... and from a capability-rich in-memory reader
+			}
+			for _, mode := range modes {
+				oneByte := mode == 1
+				o := runEntry(e, data, mode)
 				st.Evals++
 				st.PerEntry[e.Name]++
 				if o.Kind != "" {
 					key := e.Name + "/" + o.Kind
 					if oneByte {
 						key = e.Name + "/short-reads/" + o.Kind
+					}
+					if mode == 2 {
+						key = e.Name + "/bytes-reader/" + o.Kind
 					}
 					if o.Kind == "panic" {
 						key += "/" + o.Site + "/" + msgClass(o.Kind, o.Msg)
@@ -583,9 +606,10 @@ func main() {
 		data, _ := hex.DecodeString(v.Hex)
 		for i := range entries {
 			if entries[i].Name == v.Entry {
-				for _, oneByte := range []bool{false, true} {
-					o := runEntry(&entries[i], data, oneByte)
-					fmt.Printf("replay %s (one byte per Read: %v): %+v\n", v.Entry, oneByte, o)
+				for mode := 0; mode <= 2; mode++ {
+					oneByte := mode == 1
+					o := runEntry(&entries[i], data, mode)
+					fmt.Printf("replay %s (reader mode %d; one byte per Read: %v): %+v\n", v.Entry, mode, oneByte, o)
 					if o.Kind != "" {
 						r.Violation(v.Entry+"/"+o.Kind, o.Msg, nil)
 					}
@@ -597,7 +621,7 @@ func main() {
 		r.Sample("replay")
 		r.Finish()
 	}
-	r.Rule("every prefix, every byte x {00,FF,80,'-','9',' ','\\n','e','.',bit-flip}, every numeric token x 16 boundary values, every 4-byte window x 8 patterns (binary files), every line deleted or duplicated, every header/text word x 41 keywords and type names, and in the thorough tier every pair of tokens x 8x8 values, of each of 15 minimal valid files (binary/ASCII STL, OFF, PLY ascii/little/big endian with lists and a zero-count element, segment CSV), fed to all 8 decoder entry points; truncations and token/word corruptions (thorough: every case) are delivered a second time through a reader that returns one byte per Read. " +
+	r.Rule("every prefix, every byte x {00,FF,80,'-','9',' ','\\n','e','.',bit-flip}, every numeric token x 16 boundary values, every 4-byte window x 20 patterns (binary files; boundary values and counts that wrap a 32-bit size computation), every line deleted or duplicated, every header/text word x 41 keywords and type names, and in the thorough tier every pair of tokens x 8x8 values, of each of 15 minimal valid files (binary/ASCII STL, OFF, PLY ascii/little/big endian with lists and a zero-count element, segment CSV), fed to all 8 decoder entry points; truncations and token/word corruptions (thorough: every case) are delivered a second time through a reader that returns one byte per Read, and truncations, tokens and 4-byte windows (thorough: every case) a third time from a *bytes.Reader (Len/Seek/ReadAt visible to the decoder). " +
 		"non-trivial = mutated files whose header the format's reader still accepts, i.e. the fault landed in a field the decoder trusts; counted once per case")
 	r.Assume("allocation bound 1 MiB + 4 KiB per input byte (out of proportion = beyond any constant-factor expansion of the input); zero-progress bound 200 reads after end of input; 20 s watchdog per decoder call")
 	total := countCases(files, r.Thorough())
